@@ -441,8 +441,7 @@ impl BitVector for Bv {
 
 impl Hash for Bv {
     fn hash<H: Hasher>(&self, state: &mut H) {
-        self.len().hash(state);
-        for i in 0..Self::int_len::<u64>(self) {
+        for i in 0..(self.significant_bits() + 63) / 64 {
             self.get_int::<u64>(i).unwrap().hash(state);
         }
     }
